@@ -98,7 +98,7 @@ def check_src(rep, prog):
     rep.check(ok, "C18.R2.arguments", "SRC parser gets (reference code, hex words 2..9 in order)", "SRC.parse", "cls.parseSRCToJson(...)",
               "SRC parser module receives %s" % ([repr(e.data[2])[:200] for e in calls][:1],))
     # containment: import and call each covered by a handler; every failure returns ''
-    handlers = {e.data[0]: e for e in I.events if e.kind == "handler" and e.func == SRCQ + "SRC.parse"}
+    handlers = {e.data[0]: e for e in I.events if e.kind == "handler"}
     okc = all(any(x in handlers and handlers[x].data[1] in ("Exception", "BaseException", None) for x in neg_excs(e.guard)) for e in calls) and bool(calls)
     oki = all(any(x in handlers for x in neg_excs(e.guard)) for e in imps) and bool(imps)
     rep.check(okc and oki, "C18.R4.containment", "SRC parser import and call are each inside try/except", "SRC.parse", "try: ... except",
